@@ -9,7 +9,7 @@ use crate::{
     gen::{cfg_strategy, lattice, triple_strategy, Cfg, CtxSpec, SeedSpec, Triple, TripleSpec, BITS, CTX_LABELS},
     mutate::{Applied, CompEdit, CompHow, PointHow, PromHow, ProofMut, PubStatement, ScalarHow, StMut, StPointHow},
     refimpl::Proof,
-    runner::{guarded, sub, CaseLog, PropertyDef, RunCtx, Sub, Tier},
+    runner::{guarded, setup, sub, CaseLog, PropertyDef, RunCtx, Sub, Tier},
 };
 
 pub fn frac_of(i: usize, n: usize) -> u16 {
@@ -139,13 +139,12 @@ pub fn alterations(cfg: &Cfg, rounds: usize, ctx: &CtxSpec, rep: u64) -> Vec<Alt
 pub fn oracle<E: Engine>(_ctx: &RunCtx, spec: &BindSpec, log: &mut CaseLog) -> Result<(), String> {
     E::reset_case();
     let t = Triple::<E>::build(&spec.base)?;
-    let proof = guarded(|| t.prove())?.map_err(|e| format!("prover refused a valid witness: {:?}", e))?;
+    let proof = setup(guarded(|| t.prove()), "the prover refused or panicked on a valid witness (C01's subject)")?;
     let bytes = proof.to_bytes();
     let zero_rounds = t.cfg.nm() == 1;
     // the unaltered triple is accepted
     for act in [VerifyAction::VerifyOnly, VerifyAction::RecoverAndVerify] {
-        guarded(|| E::verify(&mut [t.transcript()], &[t.st.clone()], &[proof.clone()], act))?
-            .map_err(|e| format!("unaltered honest triple rejected: {:?}", e))?;
+        setup(guarded(|| E::verify(&mut [t.transcript()], &[t.st.clone()], &[proof.clone()], act)), "the unaltered honest triple is rejected (C01's subject)")?;
     }
     // partner for batch embedding: same bits / degree, single commitment (so that for m >= 2 the altered member is the
     // strictly largest one and is NOT first in the batch)
@@ -161,8 +160,8 @@ pub fn oracle<E: Engine>(_ctx: &RunCtx, spec: &BindSpec, log: &mut CaseLog) -> R
         ..spec.base.clone()
     };
     let partner = Triple::<E>::build(&partner_spec)?;
-    let partner_proof = guarded(|| partner.prove())?.map_err(|e| format!("{:?}", e))?;
-    let rounds = Proof::parse_layout(&bytes).map_err(|e| format!("{:?}", e))?.l.len();
+    let partner_proof = guarded(|| partner.prove())?.map_err(crate::runner::skip_err)?;
+    let rounds = Proof::parse_layout(&bytes).map_err(crate::runner::skip_err)?.l.len();
     let alts = alterations(&t.cfg, rounds, &spec.base.ctx, spec.rep);
     let mut tested = 0u64;
     let mut controls = 0u64;
